@@ -551,6 +551,17 @@ sh_tuple_struct!(TsDeep(a: Vec<Vec<Option<Vec<i8>>>>, b: BTreeMap<String, BTreeM
 struct Out {
     text: String,
     defs: std::collections::BTreeSet<String>,
+    /// quirk flag of the class "field-less tuple variant" (Gallina bool), inferred by
+    /// running the class's witness on the real code
+    q: &'static str,
+}
+
+/// true = today's behaviour: `E2::Z()` does not survive to_value / from_value.
+fn infer_quirk_empty_tuple_variant() -> bool {
+    match to_value(E2::Z()) {
+        Ok(g) => !matches!(catch(AssertUnwindSafe(move || from_value::<E2>(g))), Some(Ok(E2::Z()))),
+        Err(_) => true,
+    }
 }
 
 impl Out {
@@ -589,7 +600,8 @@ fn rt_case<T: Shape + Serialize + DeserializeOwned + std::fmt::Debug>(out: &mut 
     );
     writeln!(
         out.text,
-        "RT\t({}, {}, {}, {})\t{{\"uses\":[{}],\"text\":{},\"impl\":{},\"nontrivial\":{}}}",
+        "RT\t({}, {}, {}, {}, {})\t{{\"uses\":[{}],\"text\":{},\"impl\":{},\"nontrivial\":{}}}",
+        out.q,
         tyname,
         sv,
         g_outcome(&g, g_gval),
@@ -613,7 +625,8 @@ fn de_case<T: Shape + DeserializeOwned + std::fmt::Debug>(out: &mut Out, tyname:
     };
     writeln!(
         out.text,
-        "DE\t({}, {}, {})\t{{\"uses\":[{}],\"text\":{},\"impl\":{},\"nontrivial\":{}}}",
+        "DE\t({}, {}, {}, {})\t{{\"uses\":[{}],\"text\":{},\"impl\":{},\"nontrivial\":{}}}",
+        out.q,
         tyname,
         g_gval(g),
         g_outcome(&r, |x: &T| x.sval()),
@@ -977,7 +990,9 @@ fn main() {
     // Rng::new(s) and Rng::new(s + 1) are the same SplitMix stream shifted by one draw;
     // forking decorrelates consecutive seeds.
     let mut rng = Rng::new(a.seed).fork();
-    let mut out = Out { text: String::new(), defs: Default::default() };
+    let q = g_bool(infer_quirk_empty_tuple_variant());
+    let mut out = Out { text: String::new(), defs: Default::default(), q };
+    writeln!(out.text, "QUIRK\t\t{{\"empty_tuple_variant\":{}}}", q).unwrap();
     // types used only by the fixed corpus
     out.def::<Option<E3>>("ty_opt_e3");
     out.def::<Option<Ts0>>("ty_opt_ts0");
